@@ -8,7 +8,7 @@
 # this isolated variant exists so that parallel work on /repo is not disturbed.)
 set -u
 PROP=$1; PATCH=$(readlink -f "$2"); TIER=${3:-quick}
-WT=/tmp/mutrun-wt; WS=/tmp/mutrun-ws; VR=/tmp/mutrun-root
+T=${MUTRUN_TAG:-}; WT=/tmp/mutrun-wt$T; WS=/tmp/mutrun-ws$T; VR=/tmp/mutrun-root$T
 declare -A ENG=( [C01]=mon-stm [C02]=mon-stm [C06]=mon-stm [C08]=mon-stm [C09]=mon-merkle [C03]=mon-chain [C04]=mon-wire [C05]=mon-wire [C07]=mon-reg [C10]=mon-client [C19]=mon-client [C11]=mon-proof [C12]=mon-digest [C13]=mon-import [C17]=mon-beacon [C18]=mon-pool [C14]=mon-agg [C15]=mon-agg [C16]=mon-agg [C20]=mon-signer )
 PKG=${ENG[$PROP]}
 if [ ! -d $WT ]; then git -C /repo worktree add -q --detach $WT HEAD || exit 2; fi
